@@ -32,6 +32,8 @@ def check(ctx, R):
     _io(ctx, R, T, cls, "bulk_write", "bulkWrite", "_write_endpoint", "UsbWriteFailedError")
     _timeout_ms(ctx, R, T, cls)
     _device(ctx, R, T)
+    from .c12 import _transport_close
+    _transport_close(ctx, R, only=("transport.usb_transport.UsbTransport",))      # "use after close raises those errors": the guard needs a reset handle
     arg_rule(ctx, R, "usb", "ARG-usb", min_count=3)
     R.assume("usb1 (libusb1) behaves per its documentation: bulkRead(endpoint, length, timeout=ms) returns at most `length` bytes, bulkWrite returns the count")
     R.undecided("behaviour of libusb and whole device sessions over it are outside the source")
